@@ -85,7 +85,9 @@ PROG_Steps == <<
   Cc("c", I(10), <<<<"W", I(3)>>, <<"N", One>>, <<"W", One>>>>),       \* (a substance listed twice adds up)
   Tr("c", "-", "p", "A2", One, "L"), Tr("a", "-", "c", "-", I(2), "L"),
   Cs("sol", "N", "W", One, "mol", I(9), "L"), Cs("sol", "N", "a", I(3), "g", I(6), "L"), Tr("sol", "-", "p", "B1", One, "L"),
-  Cf("a", "dil", "N", "W", R(1, 10), "mol", "L", I(4), "L"), Tr("dil", "-", "p", "B2", One, "L"),
+  \* (a target below what the dilute steps above leave, so that a stock that was diluted - and renamed - before is still a stock)
+  Cf("a", "dil", "N", "W", R(1, 16), "mol", "L", I(4), "L"), Tr("dil", "-", "p", "B2", One, "L"),
+  Cf("b", "dil", "D", "W", R(1, 20), "mol", "L", I(2), "L"),      \* from a source with a finite capacity: the new container has none
   Tr("a", "-", "c", "-", I(4), "L"),         \* overflows the 10-unit container the recipe itself created (7 + 4): bake must refuse
   Fl("p3", "plate", "W", "L", I(5))>>        \* wells A1, A2, B3 get 4; A3 3; B1 2; B2 5 (grouped by amount in the instruction)
 PROG_Alphabet == PROG_Steps \o <<Ss("s1"), Es("s1"), Ss("s2"), Bk>>
